@@ -802,12 +802,26 @@ def run(ctx):
     nh, nsc = run_histories(ctx, 8 if q else 40)
     ctx.note('binding C: %d history walks over %d scenarios (every gas profile type and TaurexChemistry; fitting parameters, '
              'layer count, pressure grid, temperature)' % (nh, nsc))
+    # ---- the composition parameters of a whole model as a registry (spec/ParamFrame.tla, shared with C07): constructor
+    # values (explicit, or left at their DEFAULTS) against values written later; fresh objects built at any time
+    from .. import fx_paramframe
+    clear_available()
+    try:
+        n = fx_paramframe.run_paramframe(ctx, 2 if q else 8, clause='composition_parameters_as_requested', only='chemistry')
+    finally:
+        from ..fixtures import reset_caches
+        reset_caches()
+    ctx.note('registry walks on whole models (composition parameters, defaults omitted in half of them): %d' % n)
 
 
 def replay(ctx, violations):
     quiet()
     for viol in violations:
         v = viol['vector']
+        if 'paramframe' in v:
+            from .. import fx_paramframe
+            fx_paramframe.replay_vector(ctx, viol)
+            continue
         if v.get('history'):
             from .. import fx_chemhistory as fx
             set_available(['H2O', 'CO', 'N2', 'TiO'])
